@@ -11,7 +11,7 @@ Core Lean only.  The VM model is written ONCE, generic in a *memory interface*
   sub-slices keep the parent's capacity.  This is the code as it is (C06).
 
 Gas accounting only looks at item *lengths*, so the C07 theorems are proved once for
-every memory that satisfies the three length laws `MemLaws`, i.e. for both instances.
+every memory that satisfies the two length laws `MemLaws`, i.e. for both instances.
 -/
 namespace BytomModel.VM
 
@@ -94,12 +94,11 @@ structure MemOps (μ ι : Type) where
   /-- Go `x[lo:hi]` (callers guarantee `lo ≤ hi ≤ len x`) -/
   slice : ι → Nat → Nat → ι
 
-/-- what gas accounting needs to know about a memory -/
+/-- what gas accounting needs to know about a memory: a fresh item has the length of its
+    contents, and reading through an item never yields more than `len` bytes (both hold
+    unconditionally for the value memory and for the Go-slice heap) -/
 structure MemLaws {μ ι : Type} (M : MemOps μ ι) : Prop where
   len_fresh : ∀ m b e, M.len (M.fresh m b e).2 = b.length
-  len_append : ∀ m a b, M.len (M.append m a b).2 = M.len a + b.length
-  len_slice : ∀ a lo hi, M.len (M.slice a lo hi) = hi - lo
-  /-- reading through an item never yields more than `len` bytes -/
   read_length_le : ∀ m a, (M.read m a).length ≤ M.len a
 
 /-- the value memory: items are byte strings -/
